@@ -183,33 +183,33 @@ Proof.
                 omap_rows (fun r => bind_predicate r (pred_var a) (f_p t)) (filter (sel pair_eqb (keyf_both (skey a) (okey a)) (f_s t, f_o t)) rows)).
     { rewrite omap_rows_filter. apply omap_rows_ext. intros r Hr. rewrite EXT.
       destruct (Hk r Hr) as [B1 B2]. apply bound_true in B1, B2. destruct B1 as [s Es], B2 as [o Eo].
-      unfold sel, keyf_both. rewrite Es, Eo. unfold pair_eqb. cbn [fst snd].
+      unfold sel, keyf_both. rewrite ?Es, ?Eo. unfold pair_eqb. cbn [fst snd].
       rewrite (N.eqb_sym (f_s t) s), (N.eqb_sym (f_o t) o). reflexivity. }
     rewrite E. destruct (filter (sel pair_eqb (keyf_both (skey a) (okey a)) (f_s t, f_o t)) rows) eqn:F; [| reflexivity].
     rewrite (filter_none (sel N.eqb (keyf_subj (skey a) (okey a)) (f_s t))), (filter_none (sel N.eqb (keyf_obj (skey a) (okey a)) (f_o t))), (filter_none (is_neither (skey a) (okey a))); [reflexivity | | |];
       intros r Hr; destruct (Hk r Hr) as [B1 B2]; apply bound_true in B1, B2; destruct B1 as [s Es], B2 as [o Eo];
-      unfold sel, keyf_subj, keyf_obj, is_neither; rewrite Es, Eo; reflexivity.
+      unfold sel, keyf_subj, keyf_obj, is_neither; rewrite ?Es, ?Eo; reflexivity.
   - (* subject bound *)
     rewrite (filter_none (sel pair_eqb (keyf_both (skey a) (okey a)) (f_s t, f_o t))), (filter_none (sel N.eqb (keyf_obj (skey a) (okey a)) (f_o t))), (filter_none (is_neither (skey a) (okey a)));
       try (intros r Hr; destruct (Hk r Hr) as [B1 B2]; apply bound_true in B1; apply bound_false in B2; destruct B1 as [s Es];
-           unfold sel, keyf_both, keyf_obj, is_neither; rewrite Es, B2; reflexivity).
+           unfold sel, keyf_both, keyf_obj, is_neither; rewrite ?Es, ?B2; reflexivity).
     cbn [omap_rows flat_map app]. rewrite app_nil_r. rewrite omap_rows_filter. apply omap_rows_ext. intros r Hr. rewrite EXT.
     destruct (Hk r Hr) as [B1 B2]. apply bound_true in B1. apply bound_false in B2. destruct B1 as [s Es].
-    unfold sel, keyf_subj. rewrite Es, B2. rewrite (N.eqb_sym (f_s t) s). reflexivity.
+    unfold sel, keyf_subj. rewrite ?Es, ?B2. rewrite (N.eqb_sym (f_s t) s). reflexivity.
   - (* object bound *)
     rewrite (filter_none (sel pair_eqb (keyf_both (skey a) (okey a)) (f_s t, f_o t))), (filter_none (sel N.eqb (keyf_subj (skey a) (okey a)) (f_s t))), (filter_none (is_neither (skey a) (okey a)));
       try (intros r Hr; destruct (Hk r Hr) as [B1 B2]; apply bound_false in B1; apply bound_true in B2; destruct B2 as [o Eo];
-           unfold sel, keyf_both, keyf_subj, is_neither; rewrite B1, Eo; reflexivity).
+           unfold sel, keyf_both, keyf_subj, is_neither; rewrite ?B1, ?Eo; reflexivity).
     cbn [omap_rows flat_map app]. rewrite app_nil_r. rewrite omap_rows_filter. apply omap_rows_ext. intros r Hr. rewrite EXT.
     destruct (Hk r Hr) as [B1 B2]. apply bound_false in B1. apply bound_true in B2. destruct B2 as [o Eo].
-    unfold sel, keyf_obj. rewrite B1, Eo. rewrite (N.eqb_sym (f_o t) o). reflexivity.
+    unfold sel, keyf_obj. rewrite ?B1, ?Eo. rewrite (N.eqb_sym (f_o t) o). reflexivity.
   - (* neither bound *)
     rewrite (filter_none (sel pair_eqb (keyf_both (skey a) (okey a)) (f_s t, f_o t))), (filter_none (sel N.eqb (keyf_subj (skey a) (okey a)) (f_s t))), (filter_none (sel N.eqb (keyf_obj (skey a) (okey a)) (f_o t)));
       try (intros r Hr; destruct (Hk r Hr) as [B1 B2]; apply bound_false in B1, B2;
-           unfold sel, keyf_both, keyf_subj, keyf_obj; rewrite B1, B2; reflexivity).
+           unfold sel, keyf_both, keyf_subj, keyf_obj; rewrite ?B1, ?B2; reflexivity).
     cbn [omap_rows flat_map app]. rewrite omap_rows_filter. apply omap_rows_ext. intros r Hr. rewrite EXT.
     destruct (Hk r Hr) as [B1 B2]. apply bound_false in B1, B2.
-    unfold is_neither. rewrite B1, B2. reflexivity.
+    unfold is_neither. rewrite ?B1, ?B2. reflexivity.
 Qed.
 
 Lemma flat_map_filter_skip : forall (A B : Type) (p : A -> bool) (g : A -> list B) l,
